@@ -43,7 +43,7 @@ from typing import Dict, List, Optional, Tuple
 from engine.src import FunctionInfo, own_nodes, own_nodes_incl_lambda, src_of, AnalysisError
 from engine.guards import cond_text, atoms
 from .common import resolve_call
-from .sem import expander, ctext, conds_at, calls, bind, stmt_of, guarded_values
+from .sem import expander, ctext, conds_at, calls, bind, stmt_of, guarded_values, xt
 
 RULES = {
     "C05.a": "loss orientation and scale by abstract interpretation (side -> polynomial in q): IRLS weights and monitored error proportional to (over: 1-q, under: q); score = 2 x mean pinball loss, MAE at q = 0.5",
@@ -899,7 +899,7 @@ def check_b(ck, repo):
                 for v in pairs:
                     base = conds_at(repo, fit, s)
                     for conds, e, at in _split(repo, fit, v, s, base):
-                        txt = ex.text(e, fit, at)
+                        txt = xt(e)
                         n += 1
                         if F in conds:
                             if attr == "intercept_":
@@ -921,7 +921,7 @@ def check_b(ck, repo):
         if "X" not in b:
             continue
         for conds, e, at in _split(repo, fit, b["X"], c):
-            designs[T in conds, F in conds] = (ex.text(e, fit, at), c)
+            designs[T in conds, F in conds] = (xt(e), c)
     dT, dF = designs.get((True, False)), designs.get((False, True))
     if dT is None or dF is None:
         ck.unknown("C05.b", fit, "design matrix of the inner fit", f"cannot split the design matrix by fit_intercept: {designs}")
